@@ -328,7 +328,7 @@ impl PropImpl for C04 {
          with a comment, multi-line value, duplicate name or no final newline. Distinct by hash of (start, history).".into()
     }
     fn budget(&self, tier: Tier) -> Budget {
-        Budget { cases_per_lane: if tier == Tier::Quick { 2000 } else { 40_000 }, tape_max: 900, cpu_s: 10 }
+        Budget { cases_per_lane: if tier == Tier::Quick { 10000 } else { 40_000 }, tape_max: 900, cpu_s: 10 }
     }
     fn spaces(&self, _tier: Tier) -> Vec<Space> {
         vec![Space { name: "all histories of length <= 3 over 28 operations on 12 start layouts".into(), size: HIST * LAYOUTS.len() as u64, exhaustive: true }]
